@@ -356,7 +356,7 @@ class Run:
             return
         snap = str(obj)
         ck = self.cfg.get('checks', {})
-        if ck.get('message', True):
+        if ck.get('message', True) and not op.get('malformed'):
             check_message(obj, op, self.adder(op), '')
             if str(obj) != snap:
                 self.add('C13.msg-mutated', 'reading the accessors / inspect() changed the message', op)
@@ -367,8 +367,20 @@ class Run:
         B = canon_et(self.P.xml)
         for clause, detail in judge(A, op, out, B):
             self.add(clause, detail, op)
-        if op['type'] == 'RODelete' and out['exc'] is None and not was_completed:
+        if op['type'] == 'RODelete' and out['exc'] is None and not was_completed and not op.get('malformed'):
             self.completed = True
+        if op.get('malformed') and out['exc'] is None:
+            # whatever a malformed message did when it was accepted is adopted
+            self.completed = bool(RoView(B).metas)
+            if RoView(B).rc is not None:
+                from .xmlmodel import child_text as _ct
+                self.orig_roid = _ct(RoView(B).rc, 'roID')
+        if out['exc'] is None and not op.get('malformed'):
+            # messages that carry a roID into the running order decide what it is from now on
+            if op['type'] == 'MetadataReplace':
+                self.orig_roid = op.get('ro_id', 'RO1')
+            elif op['type'] == 'ROReplace':
+                self.orig_roid = next((c[2] for c in op['payload'] if c[0] == 'roID'), self.orig_roid)
         self.sP_last = sB
         outcome = ('refused-completed' if out['completed_error'] else 'refused' if out['merge_error']
                    else 'crashed' if out['exc'] else 'warned' if out['warnings'] else 'applied')
@@ -381,7 +393,7 @@ class Run:
             self.cov.add(('pair', self.log[-1][2] if self.log[-1][1] == 'msg' else self.log[-1][1], op['type']))
         self.note_probes(op, step, outcome, was_completed, out)
         self.msgs.append((obj, snap, op, self.step_i))
-        if ck.get('message', True) and ck.get('message_after', True):
+        if ck.get('message', True) and ck.get('message_after', True) and not op.get('malformed'):
             check_message(obj, op, self.adder(op, {'when': 'after-merge'}), 'after merge: ')
         if not self.twin:
             self.state_checks(op)
@@ -569,6 +581,11 @@ class Run:
             if self.P is not None:
                 if self.twin:
                     self.drain_twin(10 ** 9)
+                ck = self.cfg.get('checks', {})
+                if ck.get('message', True) and ck.get('message_late', True):
+                    for obj, snap, op, st in self.msgs:
+                        if not op.get('malformed'):
+                            check_message(obj, op, self.adder(op, {'when': 'end-of-run'}), 'at the end of the run: ')
                 for obj, snap, op, st in self.msgs:
                     if str(obj) != snap:
                         self.add('C13.msg-mutated', 'message object merged at step %d changed afterwards' % st, op, {'mode': 'end-of-run'})
